@@ -62,6 +62,7 @@ def run(ctx):
                         cases.append({'kn': kn, 's': s, 'e': s + size, 'mode': mode, 'chunk': 0, 'N': ctx.rng.choice([1, 3, 4, 7]),
                                       'maxT': 1 << 31, 'minItems': 1, 'g': g, 'wait': 1 if mode == 'a' else ctx.rng.choice([0, 1]), 'rdv': 0, 'reuse': 0})
     cases += pf_common.gen_pf_cases(ctx, max(0, n - len(cases)), gmin=2, big_pool_every=0 if ctx.quick else 50)
+    cases += pf_common.gen_pf_inpool_cases(ctx, 200 if ctx.quick else 3000, gmin=2, modes=('s', 'a'))
     results = pf_common.run_pf_cases(exe, cases)
     verd = pf_common.judge_pf(ctx, 'cases', 'judge_c13', cases, results, l3)
     if verd is None:
